@@ -238,10 +238,8 @@ func (x *Exec) sliceAsArray(s SliceV, w int) *Term {
 		if isZero(s.Off) {
 			return bv.Arr
 		}
-		arr := Fresh("view!arr", Arr(w))
 		k := FreshBound("k", BV(64))
-		x.assume(Forall([]*Term{k}, Imp(BvUlt(k, s.Len), Eq(Select(arr, k), Select(bv.Arr, BvAdd(s.Off, k))))))
-		return arr
+		return DefArr(w, k, Select(bv.Arr, BvAdd(s.Off, k)))
 	case ArrayV:
 		n, ok := concreteLen(s)
 		if !ok {
